@@ -247,6 +247,26 @@ def plan_mutations(rs, rng):
     v = b["context"][k]
     b["context"][k] = v[:-1] + [v[-1] + 1.5 if isinstance(v[-1], float) else str(v[-1]) + "x"]
     out.append(("value_changed", m))
+    # the smallest change of a value: another scalar type that compares equal in Python (3.0 -> 3, 3 -> 3.0, 1 -> True).
+    # The runs receive a different object (an int is not a float to a type-strict source), so it is another plan.
+    from vlib.rewrite import _retype
+
+    for bi, blk in enumerate(rs["blocks"]):
+        done = False
+        for kk in sorted(blk.get("context") or {}):
+            vals = blk["context"][kk]
+            for vi, x in enumerate(vals if isinstance(vals, list) else []):
+                nv = _retype(x)
+                if nv is not None:
+                    m = copy.deepcopy(rs)
+                    m["blocks"][bi]["context"][kk][vi] = nv
+                    out.append(("value_retyped", m))
+                    done = True
+                    break
+            if done:
+                break
+        if done:
+            break
     m = copy.deepcopy(rs)
     b = m["blocks"][0]
     k = sorted(b["context"])[0]
